@@ -18,7 +18,6 @@ import (
 	"strconv"
 	"strings"
 	"sync"
-	"sync/atomic"
 	"time"
 
 	"github.com/moorara/algo/generic"
@@ -52,19 +51,25 @@ func b(x bool) string {
 	return "f"
 }
 
-// watchdog: an op that does not return within the deadline is reported as HANG and the process exits.
+// watchdog: an op that is still in flight after 60 consecutive watchdog ticks (>= 15 s of time in
+// which this process was actually scheduled) is reported as HANG and the process exits.
 var (
 	wmu      sync.Mutex
 	inflight string
-	started  time.Time
-	progress atomic.Int64
+	opSeq    int64
 )
 
 func watchdog(w *tr.W) {
+	last, same := int64(-1), 0
 	for {
 		time.Sleep(250 * time.Millisecond)
 		wmu.Lock()
-		if inflight != "" && time.Since(started) > 8*time.Second {
+		if inflight != "" && opSeq == last {
+			same++
+		} else {
+			last, same = opSeq, 0
+		}
+		if same >= 60 {
 			w.Op(inflight, "HANG")
 			w.Flush()
 			os.Exit(4)
@@ -77,7 +82,8 @@ func exec(w *tr.W, h heap.IndexedHeap[int, int], op string) {
 	f := strings.Fields(op)
 	a := func(i int) int { v, _ := strconv.Atoi(f[i]); return v }
 	wmu.Lock()
-	inflight, started = op, time.Now()
+	inflight = op
+	opSeq++
 	wmu.Unlock()
 	res := "?"
 	func() {
